@@ -20,7 +20,7 @@ CHECKS = {
          "State key omits 2Q ghost lists; chain of 5-6 headers; Sync+quiescence after each op (the property is stated for synced writes).", "2.2 C04"),
  "C08": ("E1-seqx", "model_checking",
          "explicit-state enumeration: every reachable store state x every (from,to) pair x continuation x single write-fault position, executed on the real store and compared with the reference model",
-         "For each distinct state from the BFS (depth 2 quick / 3 thorough), all (from,to) pairs over 10 relative positions incl. 0 and 2^64-1, with/without a reading OnDelete handler; rejected ranges must leave observation vector and raw datastore image identical; accepted ones must remove raw keys, pending entries and every lookup, keep outside headers, set pointers, and stay deleted across 8 continuations (restart, appends, re-append); every position of one failing datastore write during the delete is enumerated with the part-way-failure oracle and retry; a handler that rejects every height >= X (X over the first positions of the range) is a second part-way failure, run on the sequential path and, with the parallel path forced through the threshold hook, on the parallel path (several workers fail in one call): rejected heights stay readable, the error is surfaced, a retry from the reported Tail completes.",
+         "For each distinct state from the BFS (depth 2 quick / 3 thorough), all (from,to) pairs over 10 relative positions incl. 0 and 2^64-1, with/without a reading OnDelete handler; rejected ranges must leave observation vector and raw datastore image identical; accepted ones must remove raw keys, pending entries and every lookup, keep outside headers, set pointers, and stay deleted across 8 continuations (restart, appends, re-append); every pair again with one more header appended right before the call and still in the write queue (slow datastore); every position of one failing datastore write during the delete is enumerated with the part-way-failure oracle and retry; a handler that rejects every height >= X (X over the first positions of the range) is a second part-way failure, run on the sequential path and, with the parallel path forced through the threshold hook, on the parallel path (several workers fail in one call): rejected heights stay readable, the error is surfaced, a retry from the reported Tail completes.",
          "Open findings F06/F07 (write-fault paths) are reported as KNOWN-FINDING; fault model = one failing write attempt (put/delete/batch/commit).", "2.2 C08"),
  "C14": ("E1-seqx", "fault_enumeration",
          "exhaustive enumeration of handler fault positions (handler i, invocation k, error|panic) over every reachable state x accepted range, sequential and parallel deletion path, on the real store",
@@ -64,7 +64,7 @@ CHECKS = {
          "Event granularity; liveness is evaluated at bubble quiescence in virtual time.", "2.3 C07"),
  "C15": ("E1-syncx", "model_checking",
          "exhaustive enumeration of (distance, trust range, candidate kind, failing fetch position) on the real gossip verifier with a real store",
-         "Subjective head in {1,5}, distance 2..12 (thorough 24), trust range 1..d and unlimited, honest or forged candidate, and for each the failure of every single intermediate fetch the fault-free run performs, as a generic error or ErrNotFound, once or for every fetch from that one on; accept iff honest and no needed fetch failed, refusal leaves the candidate neither pending nor stored, only chain headers are promoted, fetch count bounded by d*(floor(log2 d)+1).",
+         "Subjective head in {1,5}, distance 2..12 (thorough 24), trust range 1..d and unlimited, honest or forged candidate, and for each the failure of every single intermediate fetch the fault-free run performs, as a generic error or ErrNotFound, once or for every fetch from that one on, and after a one-off failure the same candidate is delivered again; accept iff honest and no needed fetch failed, refusal leaves the candidate neither pending nor stored, only chain headers are promoted, fetch count bounded by d*(floor(log2 d)+1).",
          "Getter honest apart from injected fetch errors.", "2.3 C15"),
  "C16": ("E1-syncx", "model_checking",
          "exhaustive enumeration of the Validate-accepted parameter product x chain shapes x stores x reconfiguration pairs through the Syncer's public API",
@@ -72,15 +72,15 @@ CHECKS = {
          "Open finding F13 reported as KNOWN-FINDING.", "2.3 C16"),
  "C19": ("E1-syncx", "model_checking",
          "explicit-state BFS over histories of Head() calls, clock advances, deliveries and held trusted-head answers on the real Syncer, per-call and per-state oracle; plus stateless DFS over thread schedules of three concurrent Head() callers (instrumented sync package)",
-         "Stores {empty, fresh, stale, expired head (peers fresh / peers expired), stale head with trusted peers lagging behind gossip}; events Head(), deliver next, advance {3s, 40s, 4000s}, answers of the held trusted-head request {newer, same, one above the verified head, tip, error, soft+header} and of the initialisation request {fresh tip, old, error}; depth 5 quick / 7 thorough. Per completed Head(): no request when recent, exactly one request carrying the subjective head when stale, re-initialisation asks the trusted peers (request without trusted head) and only adopts non-expired heads; per state: at most one head request in flight (single flight) and results never decrease in completion order. Schedule part: all schedules with <= 1 preemption (thorough <= 2) of three concurrent Head() callers on a stale head: exactly one request carrying the subjective head, results never decrease.",
+         "Stores {empty, fresh, stale, expired head (peers fresh / peers expired), stale head with trusted peers lagging behind gossip}; events Head(), deliver next, advance {3s, 40s, 4000s}, answers of the held trusted-head request {newer, same, one above the verified head, tip, error, soft+header} and of the initialisation request {fresh tip, old, error}; depth 5 quick / 7 thorough. Per completed Head(): no request when recent, exactly one request carrying the subjective head when stale, re-initialisation asks the trusted peers (request without trusted head) and only adopts non-expired heads; per state: at most one head request in flight (single flight), every group of overlapping callers on one stale head causes exactly one request, and results never decrease in completion order. Schedule part: all schedules with <= 1 preemption (thorough <= 2) of three concurrent Head() callers on a stale head: exactly one request carrying the subjective head, results never decrease.",
          "Overlapping Head() callers are explored at event granularity (a second call while the first one's request is held).", "2.3 C19"),
  "C12": ("E2-schedx", "model_checking",
          "stateless DFS over thread schedules with iterative preemption bounding on the real store code (instrumented copy generated from the working tree, controlled scheduler on synctest quiescence)",
-         "Every synchronisation operation of the store package (mutex/rwmutex/once/waitgroup, atomics, channel send/recv/close/select, goroutine start) and every datastore operation is a scheduling point; all schedules with <= 1 preemption (quick; thorough <= 2, one more attempted) are enumerated for: reader vs contiguous append, reader vs gapped-then-filled append, two readers + canceller + writer, missing height below Height(), cancelled reader, (thorough) two readers vs out-of-order writers; batch sizes 1 and 64. Oracle per execution: the reader gets the appended header and never its deadline (a lost wake-up is a reader only released by virtual time), ErrNotFound / cancellation without time passing, no deadlock.",
+         "Every synchronisation operation of the store package (mutex/rwmutex/once/waitgroup, atomics, channel send/recv/close/select, goroutine start) and every datastore operation is a scheduling point; all schedules with <= 1 preemption (quick; thorough <= 2, one more attempted) are enumerated for: reader vs contiguous append, reader vs gapped-then-filled append, two readers + canceller + writer, missing height below Height(), cancelled reader, reader vs the first batch of an empty store, gapped-never-filled, (thorough) two readers vs out-of-order writers; batch sizes 1 and 64. Oracle per execution: the reader gets the appended header and never its deadline (a lost wake-up is a reader only released by virtual time), ErrNotFound / cancellation without time passing, no deadlock.",
          "Unsynchronised accesses between two scheduling points are not interleaved; weak memory is not modelled; Go's own choice among select clauses becoming ready simultaneously while a thread is blocked is not owned.", "2.2 C12"),
  "C17": ("E2-schedx", "model_checking",
          "stateless DFS over thread schedules with iterative preemption bounding on the real store code (instrumented copy), per-execution oracle and comparison with the sequential result",
-         "Scenarios: two writers (gap then fill) + reader doing Head/Height/GetByHeight/Get rounds; append+Sync then read from another thread; tail-side DeleteRange racing with appends; (thorough) three out-of-order writers + reader; batch sizes 1, 2, 64; all schedules with <= 1 preemption (quick; thorough <= 2, one deeper attempted). Oracle: Head().Height() and Height() never decrease within a reader, Head's header is retrievable by height and by hash, synced headers are readable from any thread, final store equals the sequential execution and is gap-free.",
+         "Scenarios: two writers (gap then fill) + reader doing Head/Height/GetByHeight/Get rounds; append+Sync then read from another thread; Sync from another thread after Append returned followed by non-waiting reads; tail-side DeleteRange racing with one and with two separate appends; (thorough) three out-of-order writers + reader; batch sizes 1, 2, 64; all schedules with <= 1 preemption (quick; thorough <= 2, one deeper attempted). Oracle: Head().Height() and Height() never decrease within a reader, Head's header is retrievable by height and by hash, synced headers are readable from any thread, final store equals the sequential execution and is gap-free.",
          "Same scheduling-point granularity as C12; the randomised real-thread -race pass named in the statement is auxiliary (tools/racepass.sh), not the deciding step.", "2.2 C17"),
 }
 
